@@ -1451,6 +1451,9 @@ class QueryBuilder(Selectable, Term):  # type:ignore[misc]
         has_reference_to_foreign_table = self._foreign_table
         has_update_from = self._update_table and self._from
 
+        # The position this query is embedded in decides only about the parentheses and the alias around the whole
+        # statement; it must not leak into the clauses inside (which set what they need themselves).
+        wrap_in_parentheses, print_alias = ctx.subquery, ctx.with_alias
         ctx = ctx.copy(
             with_namespace=any(
                 [
@@ -1460,7 +1463,10 @@ class QueryBuilder(Selectable, Term):  # type:ignore[misc]
                     has_reference_to_foreign_table,
                     has_update_from,
                 ]
-            )
+            ),
+            subquery=False,
+            with_alias=False,
+            subcriterion=False,
         )
 
         if self._update_table:
@@ -1555,12 +1561,12 @@ class QueryBuilder(Selectable, Term):  # type:ignore[misc]
         if self._for_update:
             querystring += self._for_update_sql(ctx)
 
-        if ctx.subquery:
+        if wrap_in_parentheses:
             querystring = "({query})".format(query=querystring)
         if self._on_conflict:
             querystring += self._on_conflict_sql(ctx)
             querystring += self._on_conflict_action_sql(ctx)
-        if ctx.with_alias:
+        if print_alias:
             return format_alias_sql(querystring, self.alias, ctx)
 
         return querystring
